@@ -509,6 +509,14 @@ UMessage UMInlineAddMessage(UMessage * parentMsg, const char * fieldName, uint32
    return ret;
 }
 
+/* Returns true iff (ptr) points to a field that lies entirely inside the valid bytes of (msg) and whose name is NUL-terminated */
+static UBool IsIterableFieldPointerValid(const UMessage * msg, uint8 * ptr)
+{
+   if (IsFieldPointerValid(msg, ptr) == UFalse) return UFalse;
+   const uint32 nameLen = GetFieldNameLength(ptr);
+   return ((nameLen > 0)&&(GetFieldName(ptr)[nameLen-1] == '\0')) ? UTrue : UFalse;
+}
+
 static UBool UMIteratorCurrentFieldMatches(UMessageFieldNameIterator * iter)
 {
    return ((iter->_currentField == NULL)||(iter->_typeCode == B_ANY_TYPE)||(UMReadInt32(GetFieldTypePointer(iter->_currentField)) == iter->_typeCode));
@@ -521,7 +529,8 @@ void UMIteratorInitialize(UMessageFieldNameIterator * iter, const UMessage * msg
    if (msg->_numValidBytes > MESSAGE_HEADER_SIZE)
    {
       iter->_currentField = msg->_buffer+MESSAGE_HEADER_SIZE;
-      if (UMIteratorCurrentFieldMatches(iter) == UFalse) UMIteratorAdvance(iter);
+      if (IsIterableFieldPointerValid(msg, iter->_currentField) == UFalse) iter->_currentField = NULL;  /* don't trust the lengths stored in the buffer */
+      else if (UMIteratorCurrentFieldMatches(iter) == UFalse) UMIteratorAdvance(iter);
    }
    else iter->_currentField = NULL;
 }
@@ -558,6 +567,7 @@ static uint32 GetNumItemsInField(const UMessage * msg, void * ftptr)
                printf("MicroMessage:  GetNumItemsInField:  sub-Message size " UINT32_FORMAT_SPEC " was too small!\n", msgSize);
                break;  /* paranoia -- avoid infinite loop */
             }
+            if (msgSize > (numBytes-sizeof(uint32))) break;  /* sub-Message would extend past the end of the field */
             fdata += msgSize;
 
             const uint32 moveBy = sizeof(uint32)+msgSize;
@@ -607,6 +617,7 @@ void UMIteratorAdvance(UMessageFieldNameIterator * iter)
             if (bytesLeft > 0) printf("UMIteratorAdvance:  Iteration found too-short field-header (" UINT32_FORMAT_SPEC " < " UINT32_FORMAT_SPEC "), aborting iteration!\n", bytesLeft, MINIMUM_FIELD_HEADERS_SIZE);
             iter->_currentField = NULL;
          }
+         else if (IsIterableFieldPointerValid(iter->_message, iter->_currentField) == UFalse) iter->_currentField = NULL;  /* the next field's name or data would extend past the valid bytes */
       }
       if (UMIteratorCurrentFieldMatches(iter)) return;
    }
@@ -909,6 +920,7 @@ const char * UMGetString(const UMessage * msg, const char * fieldName, uint32 id
    if (field == NULL) return NULL;
 
    void * ftptr = GetFieldTypePointer(field);
+   if (GetFieldDataLength(ftptr) < (2*sizeof(uint32))) return NULL;  /* no room for the number-of-items and first-string-length fields */
    if (idx >= GetNumItemsInField(msg, ftptr)) return NULL;
 
    const uint8 * afterEndOfField = GetFieldData(ftptr)+GetFieldDataLength(ftptr);
@@ -916,12 +928,17 @@ const char * UMGetString(const UMessage * msg, const char * fieldName, uint32 id
    while(idx > 0)
    {
       const uint32 stringSize = UMReadInt32(pointerToString-sizeof(uint32));
-      if ((stringSize+sizeof(uint32)) > (uint32)(afterEndOfField-pointerToString)) return NULL;  /* paranoia */
+      const uint32 stringBytesLeft = (uint32)(afterEndOfField-pointerToString);
+      if ((stringSize > stringBytesLeft)||((stringBytesLeft-stringSize) < sizeof(uint32))) return NULL;  /* paranoia */
       pointerToString += UMReadInt32(pointerToString-sizeof(uint32))+sizeof(uint32);  /* move past the string and the next string's string-length-field */
       idx--;
    }
 
    if (pointerToString >= afterEndOfField) return NULL;
+
+   const uint32 lastStringSize = UMReadInt32(pointerToString-sizeof(uint32));
+   if (lastStringSize > (uint32)(afterEndOfField-pointerToString)) return NULL;
+   afterEndOfField = pointerToString+lastStringSize;  /* the NUL byte must be inside the string itself, not in a later item */
 
    UBool foundNULByte = UFalse;
    for (const uint8 * p = pointerToString; p<afterEndOfField; p++) {if (*p == '\0') {foundNULByte = UTrue; break;}}
@@ -934,6 +951,7 @@ c_status_t UMFindData(const UMessage * msg, const char * fieldName, uint32 dataT
    if (field == NULL) return CB_ERROR;
 
    void * ftptr = GetFieldTypePointer(field);
+   if (GetFieldDataLength(ftptr) < (2*sizeof(uint32))) return CB_ERROR;  /* no room for the number-of-items and first-blob-length fields */
    if (idx >= GetNumItemsInField(msg, ftptr)) return CB_ERROR;
 
    const uint8 * afterEndOfField = GetFieldData(ftptr)+GetFieldDataLength(ftptr);
@@ -941,7 +959,8 @@ c_status_t UMFindData(const UMessage * msg, const char * fieldName, uint32 dataT
    while(idx > 0)
    {
       const uint32 blobSize = UMReadInt32(pointerToBlob-sizeof(uint32));  /* move past the blob and the next blob's string-length-field */
-      if ((blobSize+sizeof(uint32)) > (uint32)(afterEndOfField-pointerToBlob)) return CB_ERROR;  // paranoia
+      const uint32 blobBytesLeft = (uint32)(afterEndOfField-pointerToBlob);
+      if ((blobSize > blobBytesLeft)||((blobBytesLeft-blobSize) < sizeof(uint32))) return CB_ERROR;  // paranoia
       pointerToBlob += blobSize+sizeof(uint32);  /* move past the blob and the next blob's string-length-field */
       idx--;
    }
@@ -961,16 +980,21 @@ c_status_t UMFindMessage(const UMessage * msg, const char * fieldName, uint32 id
    if (field == NULL) return CB_ERROR;
 
    void * ftptr = GetFieldTypePointer(field);
+   if (GetFieldDataLength(ftptr) < sizeof(uint32)) return CB_ERROR;  /* no room for the first msg-length field */
    const uint8 * afterEndOfField = GetFieldData(ftptr)+GetFieldDataLength(ftptr);
    const uint8 * pointerToMsg = ((uint8 *)ftptr)+(3*sizeof(uint32));  /* skip past the field-type, field-size, and first-msg-length fields (there is no field-size field) */
    while(idx > 0)
    {
       const uint32 msgSize = UMReadInt32(pointerToMsg-sizeof(uint32));
-      if ((msgSize < MESSAGE_HEADER_SIZE)||((msgSize+sizeof(uint32)) > (uint32)(afterEndOfField-pointerToMsg))) return CB_ERROR;  /* paranoia */
+      const uint32 msgBytesLeft = (uint32)(afterEndOfField-pointerToMsg);
+      if ((msgSize < MESSAGE_HEADER_SIZE)||(msgSize > msgBytesLeft)||((msgBytesLeft-msgSize) < sizeof(uint32))) return CB_ERROR;  /* paranoia */
       pointerToMsg += msgSize+sizeof(uint32);  /* move past the msg and the next msg's msg-length-field */
       idx--;
    }
-   return UMInitializeWithExistingData(retMessage, pointerToMsg, UMReadInt32(pointerToMsg-sizeof(uint32)));
+
+   const uint32 lastMsgSize = UMReadInt32(pointerToMsg-sizeof(uint32));
+   if (lastMsgSize > (uint32)(afterEndOfField-pointerToMsg)) return CB_ERROR;  /* the sub-Message must lie inside its field */
+   return UMInitializeWithExistingData(retMessage, pointerToMsg, lastMsgSize);
 }
 
 UBool UMGetBoolFromArray(UBoolArrayHandle handle, uint32 idx)
